@@ -63,9 +63,14 @@ PROPS = {
     "C13": {"streams": [_HUB_STREAM], "oracles": ["hub", "swarm"], "rule": _HUB_RULE, "assumptions": _HUB_ASSUME, "oracle_n": {"quick": 100, "thorough": 2000}},
     "C12": {"streams": [_HUB_STREAM], "oracles": ["hub", "swarm", "kesw"], "rule": _HUB_RULE + " " + _KESW_RULE, "assumptions": _HUB_ASSUME, "oracle_n": {"quick": 100, "thorough": 2000},
             "oracle_n_by": {"kesw": {"quick": 8, "thorough": 500}}},
-    "C11": {"streams": [_HUB_STREAM, _FRAG_STREAM], "oracles": ["hub", "swarm", "mbask"], "assumptions": _HUB_ASSUME, "oracle_n": {"quick": 100, "thorough": 2000},
+    "C11": {"streams": [_HUB_STREAM, _FRAG_STREAM, {"name": "ask", "quick": 15000, "thorough": 400000, "thorough_seeds": 2, "stateful": True, "seq_start": "a-new"}], "oracles": ["hub", "swarm", "mbask"], "assumptions": _HUB_ASSUME, "oracle_n": {"quick": 100, "thorough": 2000},
             "oracle_n_by": {"mbask": {"quick": 25, "thorough": 1500}},
-            "rule": _HUB_RULE + " `mbask` oracle: an mbapp asker, restarted now and then on the same transport address (its counter starts again), "
+            "rule": _HUB_RULE + " `ask` stream: the real mbapp ask path under the fake clock (bin/corr26) against Model/Asker.lean: asks with response "
+                    "buffers of 0..64 bytes and time-outs of 5 ms..40 s to two real responder swarms whose handlers answer, answer long or fail; "
+                    "the harness holds every datagram, serves requests (also expired ones, also twice), and delivers replies unchanged or "
+                    "with the counter, the origin time or the source altered; restarts of the asker on the same address (sometimes in the "
+                    "same millisecond), cancellations, clock steps; compared: counter and origin time of every request, every reply's "
+                    "header and body, and the state of every Ask call after every operation. `mbask` oracle: an mbapp asker, restarted now and then on the same transport address (its counter starts again), "
                     "with several asks outstanding to two responders whose handlers answer, wait or fail; the harness is the network: "
                     "requests and replies are handed over late, out of order, twice, after the ask was cancelled or after a restart; "
                     "every Ask that succeeds must return what the handler produced for that very request, within its deadline."},
